@@ -23,7 +23,7 @@ NINE_KEYS = ["dimension_names", "dimension_items", "processes", "flows", "flow_d
     "export.convert_to_dict_numpy",
     props=["C19", "C15"],
     targets=["flodym.export.data_writer.convert_to_dict", "flodym.export.data_writer._convert_to_dict_by_func", "flodym.export.data_writer._get_convert_func"],
-    skeletons=lambda tier: [{"graph": g} for g in GRAPHS],
+    skeletons=lambda tier: [{"graph": g} for g in GRAPHS if tier == "thorough" or not g.startswith("generated")],
     note="the numpy form returns the live value buffers of the system (the statement only requires the export not to alter the system)",
 )
 def u_convert_numpy(W, sk):
